@@ -83,8 +83,8 @@ def run(c):
     ]
     c.notes += ["gogrep delivers the captures; Go type checking of the rules file precedes irconv (ill-typed comparisons never reach it)"]
 
-    build_own_theories(c, "Base/Outcome.v", "Filters/FilterIR.v", "Filters/FilterAlgebra.v", "Filters/LoaderState.v")
-    c.require_theories("Base/Outcome.v", "Filters/FilterIR.v", "Filters/FilterAlgebra.v", "Filters/LoaderState.v")
+    build_own_theories(c, "Base/Outcome.v", "Filters/FilterIR.v", "Filters/FilterAlgebra.v", "Filters/LoaderState.v", "Filters/ValueSources.v")
+    c.require_theories("Base/Outcome.v", "Filters/FilterIR.v", "Filters/FilterAlgebra.v", "Filters/LoaderState.v", "Filters/ValueSources.v")
 
     # ---- P
     gen_ok = False
@@ -105,12 +105,14 @@ def run(c):
         tag = "r%d" % state["round"]
         rc, out = c.run_harness(hb, ["-seed", str(seed), "-trees", str(ntrees), "-families", str(nfam), "-shared", str(nshared),
                                      "-tmp", os.path.join(c.work, "tmp")], timeout=1200)
-        sites, rules, meta = {}, [], None
+        sites, rules, meta, files = {}, [], None, []
         for line in out.splitlines():
             if not line.startswith("{"):
                 continue
             o = json.loads(line)
-            if o["k"] == "site":
+            if o["k"] == "file":
+                files.append(o)
+            elif o["k"] == "site":
                 sites[(o["i"], o["j"])] = o
             elif o["k"] == "rule":
                 rules.append(o)
@@ -461,12 +463,82 @@ def run(c):
             src.append("Print RES_IR.")
             src.append("Print RES_V.")
             jobs.append(("Cases_%s_%d.v" % (tag, k), "\n".join(src)))
+        # K: the text the engine reports for a capture is the model's node_text of (the bytes on disk, the capture's extent,
+        # what go/printer makes of the node) -- column 0 of every target
+        tsrc = ["From Coq Require Import List Bool String.", "From RG.Filters Require Import FilterIR FilterAlgebra ValueSources.",
+                "Import ListNotations. Local Open Scope string_scope."]
+        tcases, tdesc = [], []
+        for f in files:
+            # (a 60 KiB string literal overflows coqc's stack: the file is the concatenation of 2 KiB pieces, evaluated by the VM only)
+            pieces = [f["disk"][k:k + 2048] for k in range(0, len(f["disk"]), 2048)] or [""]
+            for k, piece in enumerate(pieces):
+                tsrc.append("Definition disk_%s_%d : string := %s." % (f["target"], k, cstr(piece)))
+            tsrc.append("Definition disk_%s : string := %s." % (f["target"], " ++ ".join("disk_%s_%d" % (f["target"], k) for k in range(len(pieces)))))
+            for i in range(f["first_site"], f["first_site"] + f["sites"]):
+                st = sites[(i, 0)]
+                for k, v in enumerate(("x", "y", "m")):
+                    tcases.append("(%d%%nat, disk_%s, {| tn_from := %d; tn_to := %d; tn_printed := %s |}, %s)" % (
+                        len(tdesc), f["target"], st["ext"][2 * k], st["ext"][2 * k + 1], cstr(st["print"][k]), cstr(st["text_" + v])))
+                    tdesc.append((i, v, f["target"]))
+        tsrc.append("Definition cases : list (nat * string * tnode * string) := [\n" + ";\n".join(tcases) + "].")
+        tsrc.append("Definition RES_T := Eval vm_compute in map (fun c => fst (fst (fst c))) (filter (fun c => match c with (i, f, n, t) => "
+                    "negb (String.eqb (node_text f n) t) end) cases).")
+        tsrc.append("Definition RES_P := Eval vm_compute in List.length (filter (fun c => match c with (i, f, n, t) => negb (in_file f n) end) cases).")
+        tsrc.append("Print RES_T.\nPrint RES_P.")
+        jobs.append(("TextSrc_%s.v" % tag, "\n".join(tsrc)))
+        # K: the literals of the local macro bodies, read the way expandMacro reads them on this tree (regenerated base / size):
+        # a group loads exactly when the model gives every literal a value (and no literal is of a token kind expandMacro has
+        # no case for), and the value is the Go value
+        mrules = [r for r in rules if r.get("lits") and all(l["kind"] != "STRING" or l["plain"] for l in r["lits"])]
+        msrc = ["From Coq Require Import List ZArith Bool String.", "From RG.Filters Require Import FilterIR FilterAlgebra ValueSources.",
+                "From RGW Require Import Gen_FilterTables.", "Import ListNotations. Local Open Scope string_scope.",
+                "Definition lit_ok (l : string * string * Z) : bool := match l with (k, s, v) =>",
+                "  if String.eqb k \"INT\" then match parse_int (Z.to_N gen_macro_int_base) (Z.to_N gen_macro_int_bits) s with Some z => Z.eqb z v | None => false end",
+                "  else String.eqb k \"STRING\" end.",
+                "Definition cases : list (Z * list (string * string * Z) * bool) := ["]
+        msrc.append(";\n".join("(%s, [%s], %s)" % (cz(r["idx"]), "; ".join("(%s, %s, %s)" % (cstr(l["kind"]), cstr(l["lit"]), cz(l.get("int") or 0))
+                                                                             for l in r["lits"]), coq_bool(not r.get("left_out"))) for r in mrules))
+        msrc.append("].")
+        msrc.append("Definition RES_M := Eval vm_compute in map (fun c => fst (fst c)) (filter (fun c => match c with (i, ls, loaded) => "
+                    "negb (Bool.eqb (forallb lit_ok ls) loaded) end) cases).")
+        msrc.append("Print RES_M.")
+        if mrules:
+            jobs.append(("MacroLits_%s.v" % tag, "\n".join(msrc)))
         by_idx = {r["idx"]: r for r in rules}
         ncases = 0
         for (fname, _), (ok, out) in zip(jobs, c.coq_eval_many(jobs, timeout=1500)):
             if not ok:
                 c.obligation("coq-eval:" + fname, False, out[-2000:])
                 return
+            if fname.startswith("TextSrc_"):
+                m1 = re.search(r"RES_T\s*=\s*(.*?)\s*:\s*list nat", out, re.S)
+                m2 = re.search(r"RES_P\s*=\s*(\d+)", out)
+                if not m1 or not m2:
+                    c.obligation("coq-eval-parse:" + fname, False, out[-2000:])
+                    return
+                for x in re.findall(r"\d+", m1.group(1)):
+                    i, v, tg = tdesc[int(x)]
+                    st = sites[(i, 0)]
+                    k = "xym".index(v)
+                    c.fail("corr", "the text the engine reports for a capture is not the model's node_text (file bytes inside the extent, else go/printer)",
+                           input={"site": i, "capture": "$$" if v == "m" else "$" + v, "file": DETACHED.get(tg, "on disk"), "extent": st["ext"][2 * k:2 * k + 2],
+                                  "as_written": st["src_" + v], "go/printer": st["print"][k]}, observed=st["text_" + v])
+                c.coverage["text_source_cases"] = c.coverage.get("text_source_cases", 0) + len(tdesc)
+                c.coverage["text_source_cases_printed"] = c.coverage.get("text_source_cases_printed", 0) + int(m2.group(1))
+                if int(m2.group(1)) < 20:
+                    c.obligation("harness-sanity:detached-targets", False, "only %s captures lie outside the bytes on disk" % m2.group(1))
+                continue
+            if fname.startswith("MacroLits_"):
+                m1 = re.search(r"RES_M\s*=\s*(.*?)\s*:\s*list Z", out, re.S)
+                if not m1:
+                    c.obligation("coq-eval-parse:" + fname, False, out[-2000:])
+                    return
+                for x in re.findall(r"-?\d+", m1.group(1).replace("%Z", "")):
+                    r = by_idx[int(x)]
+                    c.fail("corr", "the literals of a local macro body: the model (strconv.ParseInt with the regenerated base) and the engine disagree on whether the group loads",
+                           input=inp(r, {"literals": r["lits"]}), observed={"load_err": r.get("load_err") or None})
+                c.coverage["macro_literal_model_cases"] = c.coverage.get("macro_literal_model_cases", 0) + len(mrules)
+                continue
             m1 = re.search(r"RES_IR\s*=\s*(.*?)\s*:\s*list Z", out, re.S)
             m2 = re.search(r"RES_V\s*=\s*(.*?)\s*:\s*list \(Z \*", out, re.S)
             if not m1 or not m2:
